@@ -29,13 +29,17 @@ struct Case {
     /// 0 = client half-closes first (after sending everything), 1 = peer half-closes first,
     /// 2 = nobody closes before it has received everything it expects, 3 = the destination resets mid-download
     close: u8,
+    /// 0 = direct forwarder, 1 = through the real Socks5Forwarder and a relaying SOCKS5 proxy, 2 = the same with the
+    /// destination's first bytes arriving in the same segment as the proxy's CONNECT reply
+    route: u8,
 }
 
 impl Case {
     fn json(&self) -> Value {
+        let route = ["direct forwarder", "SOCKS5 forwarder", "SOCKS5 forwarder, destination's first bytes coalesced with the CONNECT reply"][self.route as usize];
         let order = ["client-first", "peer-first", "after-everything", "destination-resets-mid-download"][self.close as usize];
         json!({"kind":"l2-tunnel","index":self.index,"id":self.id,"protocol":if self.h2 {"h2"} else {"h1"},"up_bytes":self.up,"down_bytes":self.down,"up_chunk":self.up_chunk,"down_chunk":self.down_chunk,
-               "client_reads_slowly":self.client_slow,"peer_reads_slowly":self.peer_slow,"close_order":order})
+               "client_reads_slowly":self.client_slow,"peer_reads_slowly":self.peer_slow,"close_order":order,"route":route})
     }
 }
 
@@ -381,6 +385,20 @@ pub fn run_l2(rep: &Reporter, args: &Args) {
         let ep = start_endpoint(&dir, "127.0.0.1", &hosts, None, vec![], (true, true, false), |b| {
             b.allow_private_network_connections(true).tcp_connections_timeout(Duration::from_secs(300))
         }).await;
+        // the same tunnels through the real Socks5Forwarder: a relaying SOCKS5 proxy on loopback (and a second one that
+        // sends the destination's first bytes in the same write as its CONNECT reply)
+        let s5a = crate::s5srv::S5Server::start(Default::default()).await;
+        let s5b = crate::s5srv::S5Server::start(crate::s5srv::S5Opts { coalesce_first_bytes: true, ..Default::default() }).await;
+        let mut s5_eps = vec![];
+        for (k, s5) in [&s5a, &s5b].into_iter().enumerate() {
+            let d = env::work_dir(&args.root, &format!("c02s5{}", k));
+            let a = s5.addr;
+            s5_eps.push(start_endpoint(&d, "127.0.0.1", &hosts, None, vec![], (true, true, false), move |b| {
+                b.allow_private_network_connections(true).tcp_connections_timeout(Duration::from_secs(300))
+                    .forwarder_settings(trusttunnel::settings::ForwardProtocolSettings::Socks5(trusttunnel::settings::Socks5ForwarderSettings::builder().server_address(a).unwrap().build().unwrap()))
+            }).await);
+        }
+        let route_addr = [ep.addr, s5_eps[0].addr, s5_eps[1].addr];
         // scheduler-lag monitor
         let lag = Arc::new(AtomicU64::new(0));
         let lag2 = lag.clone();
@@ -399,7 +417,7 @@ pub fn run_l2(rep: &Reporter, args: &Args) {
             let mut r = Rng::derive(seed, 0xc02f2, i);
             let mut c = Case {
                 index: i, id: common::fnv(format!("c02l2-{}-{}", seed, i).as_bytes()), h2: r.chance(1, 2), up: *r.pick(&sizes), down: *r.pick(&sizes), up_chunk: *r.pick(&chunks), down_chunk: *r.pick(&chunks),
-                client_slow: r.chance(1, 4), peer_slow: r.chance(1, 4), close: r.below(3) as u8,
+                client_slow: r.chance(1, 4), peer_slow: r.chance(1, 4), close: r.below(3) as u8, route: 0,
             };
             // tiny chunks only for small streams
             if c.up > 100_000 && c.up_chunk < 1000 { c.up_chunk = 16_384; }
@@ -408,12 +426,28 @@ pub fn run_l2(rep: &Reporter, args: &Args) {
             if c.down > 20_000 && c.down_chunk < 7 { c.down_chunk = 7; }
             cases.push(c);
         }
+        // a share of the seeded cases again through the SOCKS5 forwarder, plus fixed ones in which the destination speaks first
+        let n0 = cases.len();
+        for i in 0..n0 {
+            if i % 3 != 0 { continue; }
+            let mut c = cases[i].clone();
+            c.index += 3_000_000;
+            c.id = common::fnv(format!("c02l2-s5-{}-{}", seed, i).as_bytes());
+            c.route = 1 + ((i / 3) % 2) as u8;
+            cases.push(c);
+        }
+        for (k, (h2, up, down, route)) in [(false, 10usize, 700usize, 2u8), (true, 10, 700, 2), (false, 0, 70_001, 2), (true, 0, 70_001, 2), (false, 300_000, 300_000, 1), (true, 300_000, 300_000, 2)].into_iter().enumerate() {
+            cases.push(Case { index: 4_000_000 + k as u64, id: common::fnv(format!("c02l2-s5fixed-{}-{}", seed, k).as_bytes()), h2, up, down, up_chunk: 16_384, down_chunk: 1000, client_slow: false, peer_slow: false, close: 2, route });
+        }
+        for (k, (h2, route)) in [(true, 1u8), (false, 1), (true, 2), (false, 2)].into_iter().enumerate() {
+            cases.push(Case { index: 5_000_000 + k as u64, id: common::fnv(format!("c02l2-s5rst-{}-{}", seed, k).as_bytes()), h2, up: 0, down: 200_000, up_chunk: 16_384, down_chunk: 16_384, client_slow: false, peer_slow: false, close: 3, route });
+        }
         for (k, (h2, down)) in [(true, 200_000usize), (false, 200_000), (true, 3000), (false, 3000), (true, 1_500_000), (false, 1_500_000)].into_iter().enumerate() {
-            cases.push(Case { index: 2_000_000 + k as u64, id: common::fnv(format!("c02l2-rst-{}-{}", seed, k).as_bytes()), h2, up: 0, down, up_chunk: 16_384, down_chunk: 16_384, client_slow: false, peer_slow: false, close: 3 });
+            cases.push(Case { index: 2_000_000 + k as u64, id: common::fnv(format!("c02l2-rst-{}-{}", seed, k).as_bytes()), h2, up: 0, down, up_chunk: 16_384, down_chunk: 16_384, client_slow: false, peer_slow: false, close: 3, route: 0 });
         }
         // transfers larger than the HTTP/2 stream (128 KiB) and connection (8 MiB) windows, either direction, and on HTTP/1.1
         for (k, (h2, up, down)) in [(true, big, 3usize), (true, 3usize, big), (false, big / 2, big / 2), (true, big / 2, big / 2)].into_iter().enumerate() {
-            cases.push(Case { index: 1_000_000 + k as u64, id: common::fnv(format!("c02l2-big-{}-{}", seed, k).as_bytes()), h2, up, down, up_chunk: 65_536, down_chunk: 65_536, client_slow: k == 1, peer_slow: k == 0, close: 2 });
+            cases.push(Case { index: 1_000_000 + k as u64, id: common::fnv(format!("c02l2-big-{}-{}", seed, k).as_bytes()), h2, up, down, up_chunk: 65_536, down_chunk: 65_536, client_slow: k == 1, peer_slow: k == 0, close: 2, route: 0 });
         }
         // debugging aid: --l2-only <index> runs one case with the library's log
         let only: Option<u64> = args.extra.iter().position(|x| x == "--l2-only").and_then(|i| args.extra.get(i + 1)).and_then(|x| x.parse().ok());
@@ -421,7 +455,7 @@ pub fn run_l2(rep: &Reporter, args: &Args) {
         let sem = Arc::new(tokio::sync::Semaphore::new(6));
         let mut js = vec![];
         for c in cases {
-            let (sem, lag, addr) = (sem.clone(), lag.clone(), ep.addr);
+            let (sem, lag, addr) = (sem.clone(), lag.clone(), route_addr[c.route as usize]);
             js.push(tokio::spawn(async move {
                 let _p = sem.acquire_owned().await.unwrap();
                 let l = TcpListener::bind("127.0.0.1:0").await.expect("bind");
@@ -436,7 +470,8 @@ pub fn run_l2(rep: &Reporter, args: &Args) {
         for j in js {
             let Ok((c, cl, peer_side, lag_ms)) = j.await else { rep.inconclusive("l2: case task failed"); continue };
             rep.evals(1);
-            rep.distinct(common::fnv(format!("{:?}", (c.h2, c.up, c.down, c.up_chunk, c.down_chunk, c.client_slow, c.peer_slow, c.close)).as_bytes()));
+            rep.distinct(common::fnv(format!("{:?}", (c.h2, c.up, c.down, c.up_chunk, c.down_chunk, c.client_slow, c.peer_slow, c.close, c.route)).as_bytes()));
+            if c.route > 0 { rep.tally("l2: tunnels through the real SOCKS5 forwarder judged", 1); }
             match cl {
                 Err(e) => { rep.inconclusive(&format!("l2: tunnel could not be opened ({})", e.chars().take(60).collect::<String>())); }
                 Ok(client_side) => {
@@ -448,6 +483,8 @@ pub fn run_l2(rep: &Reporter, args: &Args) {
         if only.is_some() { for rec in crate::common::logcap::drain() { println!("{} [{}] {}", rec.level, rec.target, rec.message.chars().take(300).collect::<String>()); } }
         hb.abort();
         ep.task.abort();
+        for e in &s5_eps { e.task.abort(); }
+        rep.set("l2_socks5", json!({"connect_requests_seen_by_the_proxies": [s5a.events().len(), s5b.events().len()]}));
         h2_credit_scenario(rep, &dir, seed, args.qt(40usize, 400usize)).await;
     });
     crate::props::h3_l2::c02_h3(rep, args);
